@@ -3,6 +3,8 @@ package zzharness
 import (
 	"fmt"
 	"strings"
+
+	"github.com/google/uuid"
 	"testing"
 	"testing/synctest"
 	"time"
@@ -46,6 +48,13 @@ func runSim(t *testing.T, s *Sched, body func()) (out simOutcome) {
 	}()
 	synctest.Test(t, func(t *testing.T) {
 		simrt.ProbeReset()
+		// uuid.NewString is used for lock ids, subscriber ids and legacy chunk file names; its randomness is a
+		// source of nondeterminism (file names decide directory order), so it is fed from the run's seed
+		seed := uint64(1)
+		if s != nil {
+			seed = s.Seed
+		}
+		uuid.SetRand(&seededReader{x: seed | 1})
 		simrt.Start(schedConfig(s))
 		func() {
 			defer func() {
@@ -102,13 +111,22 @@ const simRoot = "/hydraide"
 // startServer assembles the server the way server.Start does (settings ->
 // zeus -> hydra -> gateway), on the given simulated disk.
 func startServer(d *simdisk.Disk, closeAfterIdle, writeInterval int64) *simServer {
+	return startServerEngine(d, closeAfterIdle, writeInterval, true)
+}
+
+// startServerEngine starts the server with the V2 (single file) or the legacy V1 (chunk files) engine.
+func startServerEngine(d *simdisk.Disk, closeAfterIdle, writeInterval int64, v2engine bool) *simServer {
 	d.Env["HYDRAIDE_ROOT_PATH"] = simRoot
 	sos.SetDisk(d)
 	sos.SetZombieGuard(true)
 	s := &simServer{disk: d, logs: captureLogs()}
 	s.settings = settings.New(1, 1000)
-	if err := s.settings.SetEngine(settings.EngineV2); err != nil {
-		panic("cannot select V2 engine: " + err.Error())
+	eng := settings.EngineV1
+	if v2engine {
+		eng = settings.EngineV2
+	}
+	if err := s.settings.SetEngine(eng); err != nil {
+		panic("cannot select engine: " + err.Error())
 	}
 	s.zeus = zeus.New(s.settings, filesystem.New())
 	s.zeus.StartHydra()
@@ -130,4 +148,17 @@ func (s *simServer) stop(timeout time.Duration) bool {
 		s.zeus.StopHydra()
 	})
 	return simrt.JoinIDs([]int32{id}, timeout)
+}
+
+// seededReader is a deterministic byte stream (xorshift) for uuid.SetRand.
+type seededReader struct{ x uint64 }
+
+func (r *seededReader) Read(p []byte) (int, error) {
+	for i := range p {
+		r.x ^= r.x << 13
+		r.x ^= r.x >> 7
+		r.x ^= r.x << 17
+		p[i] = byte(r.x >> 24)
+	}
+	return len(p), nil
 }
